@@ -9,18 +9,18 @@ from props.c10 import stack_sig, IDENT, SNAP
 
 LEVEL = "proof"
 MANIFEST = dict(
-    text="Lean 4: a macro-step machine of the manager over facts regenerated from the source (the sequence pump's guards, the ping-received reset rule, where failure "
-         "events land, whether the pump survives exceptions). Its record space is finite: one-step facts are kernel evaluations over the WHOLE space and are lifted by "
-         "induction to fault scripts of any length: coherence of every reachable record, recovery to CONNECTED under a healthy network from every record outside the "
-         "decidable set Stuck (recovery_partial / recovery_after_any_script), Stuck is exactly the obstruction (stuck_never_recovers) and both kinds of stuck record are "
-         "reachable (stuck_reachable = the replays of findings D8a and D8b), an unanswered ping takes the manager out of CONNECTED, the pump dies only by a reset inside "
-         "_connect; time bounds are sums of bounds proved in C06/C15/C01 over the generated timing tables. Tie: translator facts + trace validation on the FULL real "
-         "stack (manager + locator + spa + facade + real simulator, virtual time) under seeded fault scripts (blackouts around each timeout, lossy and RF-error phases, "
-         "resets at arbitrary times incl. inside the handshake): the observed event stream is mapped to macro inputs, the model must reproduce the manager's record "
-         "after each, and the recovery time must respect the bound.",
+    text="Lean 4: a macro-step machine of the manager over facts regenerated from the source (the sequence pump's locate / connect / retry-after-not-found rules, the "
+         "ping-received reset rule, where failure events land, the LOCATING_FINISHED guard, whether the pump survives exceptions). Its record space is finite: one-step "
+         "facts are kernel evaluations over the WHOLE space, lifted by induction to fault scripts of any length: coherence of every reachable record; the FULL "
+         "statement recovery_after_every_script (after ANY fault script - loss, blackouts, RF-error periods, resets at any moment incl. inside a discovery or inside "
+         "_connect - a healthy network leads to CONNECTED with a facade; it holds since the fix: commits for D8a and D8b), never_stuck, pump_immortal, "
+         "reset_in_locate_recovers, an unanswered ping takes the manager out of CONNECTED; time bounds are sums of bounds proved in C06/C15/C01 over the generated "
+         "timing tables. Tie: translator facts + trace validation on the FULL real stack (manager + locator + spa + facade + real simulator, virtual time) under seeded "
+         "fault scripts (blackouts around each timeout, lossy and RF-error phases, selective loss, trigger phases, resets swept over the discovery / reconnect windows, "
+         "a lost partial update under continuing traffic): the observed event stream is mapped to macro inputs, the model must reproduce the manager's record after "
+         "each, the recovery time must respect the bound, the facade must mirror the spa, every blackout that begins in CONNECTED must be reported in time.",
     note="partial: the timed model abstracts discovery / request / transfer phases to the bounds proved for them elsewhere, so a delay INSIDE a phase that those properties "
-         "allow is seen only by the traces; real timer skew is outside. The full statement is false today: known findings D8a (reset inside _connect kills the pump) and "
-         "D8b (a (re)discovery during a blackout parks the manager in ERROR_SPA_NOT_FOUND, which nothing leaves).",
+         "allow is seen only by the traces; real timer skew is outside.",
     technique="Lean 4 kernel evaluation over a finite macro-step machine built from source-extracted facts, lifted by induction; trace validation of the whole real stack",
     design="5/C09")
 
